@@ -8,9 +8,9 @@ import mapcheck
 import mapgen
 
 # implementations whose model has landed: "ht", "sl", "trie"
-STREAMS = ["ht"]
+STREAMS = ["ht", "sl", "trie"]
 # implementations without a Lean model: real code against the python dictionary oracle only
-ORACLE_STREAMS = ["sl", "trie"]
+ORACLE_STREAMS = []
 
 
 def run(ctx):
